@@ -115,8 +115,22 @@ def main(ctx, replay=None):
         picks = [picks[i] for i in rng.permutation(len(picks))]
         quota = {"below": nrej // 3, "between": nrej - 2 * (nrej // 3), "above": nrej // 3}
         done = 0
-        ds = free_dataset(rng, lattice=False, settings={"NT": 8, "DT": 300, "T_MIN": 0})
+        # a data set whose reachable pressure separates by >= 3 % between the coldest and the hottest isotherm
         d = wd.sub("reject")
+        for attempt in range(8):
+            ds = free_dataset(rng, lattice=False, nat=int(rng.integers(2, 5)), settings={"NT": 10, "DT": 400, "T_MIN": 0})
+            ds.gam = ds.gam + 0.6                       # stronger volume dependence of the spectrum -> more thermal pressure
+            ds.fit_pressure_window(d, ntv=11)
+            probe0 = copy.deepcopy(ds)
+            probe0.settings["DELTA_P"] = 1e-4
+            probe0.settings["DELTA_P_SAMPLE"] = 1e-4
+            try:
+                c00 = run(probe0.write(wd.sub("probe0")))
+            except Exception:
+                continue
+            l0 = (numpy.asarray(c00.volume_base.pressures) * G)[:, -1]
+            if (l0.max() - l0.min()) >= 0.03 * abs(l0.min()):
+                break
         import logging
         logging.getLogger("cij").setLevel(logging.CRITICAL)
         for _, reach, p0, dp, cnt, verdict in picks:
